@@ -477,6 +477,7 @@ type modSpec struct {
 	ptrs   []ptrLeaf
 	roots  []Value // objects whose by-value leaves may change
 	refs   []*Term // byte arrays that may be written (refs, pre-state)
+	conds  []*Term // parallel to refs: the array is written only if this holds in the pre-state (nil: unconditionally)
 	ghosts []string
 	panic  bool
 	globals []string
@@ -697,8 +698,8 @@ func (e *Env) callContract(fc *FuncContract, key string, sig *types.Signature, r
 		lf := pl.lf
 		e.noteObjWrite(pl.id, &lf)
 	}
-	for _, rf := range ms.refs {
-		e.noteMemWrite(rf)
+	for i, rf := range ms.refs {
+		e.noteMemWriteIf(rf, ms.conds[i])
 	}
 	// havoc
 	for _, h := range havocs {
@@ -727,8 +728,12 @@ func (e *Env) callContract(fc *FuncContract, key string, sig *types.Signature, r
 		e.assume(Ge(e.nextObj(), Var(snap["$nextObj"], SInt)))
 		r := Bound("r$", SInt)
 		var excl []*Term
-		for _, rf := range ms.refs {
-			excl = append(excl, Ne(r, rf.Subst(oldMap)))
+		for i, rf := range ms.refs {
+			if c := ms.conds[i]; c != nil {
+				excl = append(excl, Or(Ne(r, rf.Subst(oldMap)), Not(c.Subst(oldMap))))
+			} else {
+				excl = append(excl, Ne(r, rf.Subst(oldMap)))
+			}
 		}
 		// nothing lives at the nil ref: it is never written
 		e.assume(Forall([]*Term{r}, Implies(And(Lt(r, preRef), Or(Eq(r, IntLit(0)), And(excl...))),
@@ -876,6 +881,7 @@ func (e *Env) modSpecOf(fc *FuncContract, key string, sig *types.Signature, actu
 			if lf.K == VSlice && !lf.ElemU {
 				v := e.loadField(subID(r.T, steps), lf)
 				ms.refs = append(ms.refs, v.Ref)
+				ms.conds = append(ms.conds, nil)
 			}
 		})
 	}
@@ -890,6 +896,17 @@ func (e *Env) modSpecOf(fc *FuncContract, key string, sig *types.Signature, actu
 		return ms
 	}
 	for _, m := range fc.Modifies {
+		// "mem(x) if COND": the array of x is written only if COND holds in the pre-state (e.g. only into spare capacity)
+		var cond *Term
+		if i := strings.Index(m, ") if "); i > 0 && strings.HasPrefix(m, "mem(") {
+			cx, err := parseSpecExpr(m[i+5:])
+			if err != nil {
+				e.errorf("bad condition in modifies item %q: %v", m, err)
+				continue
+			}
+			cond = pctx.boolTerm(cx)
+			m = m[:i+1]
+		}
 		switch {
 		case m == "mem" || m == "alloc":
 		case m == "$panic":
@@ -905,6 +922,7 @@ func (e *Env) modSpecOf(fc *FuncContract, key string, sig *types.Signature, actu
 			v := pctx.tr(x)
 			if v.K == VSlice {
 				ms.refs = append(ms.refs, v.Ref)
+				ms.conds = append(ms.conds, cond)
 			} else {
 				e.errorf("modifies mem(%s): not a slice", x.String())
 			}
@@ -949,6 +967,21 @@ func (e *Env) modSpecOf(fc *FuncContract, key string, sig *types.Signature, actu
 				e.errorf("modifies %s: not an object", m)
 			}
 		}
+	}
+	// an explicit conditional item overrides the unconditional ownership a root implies for the same array
+	for i, c := range ms.conds {
+		if c == nil {
+			continue
+		}
+		var refs, conds []*Term
+		for j, r := range ms.refs {
+			if ms.conds[j] == nil && r.String() == ms.refs[i].String() {
+				continue
+			}
+			refs, conds = append(refs, r), append(conds, ms.conds[j])
+		}
+		ms.refs, ms.conds = refs, conds
+		break // indices changed; one conditional item per contract is what is supported
 	}
 	return ms
 }
